@@ -685,13 +685,18 @@ def chain_proofs(ctx):
     import shutil, subprocess, re
     wd = os.path.join(ctx.work, "proofs_chain")
     shutil.copytree(os.path.join(core.SPEC, "proofs"), wd, ignore=shutil.ignore_patterns(".tlacache"))
-    p = subprocess.run(["timeout", "1500", "tlapm", "--threads", "6", "--cleanfp", "ChainStep.tla"], cwd=wd, stdout=subprocess.PIPE, stderr=subprocess.STDOUT, text=True)
-    m = re.search(r"All (\d+) obligations proved", p.stdout)
-    if not m:
-        raise core.ToolError("TLAPS did not prove spec/proofs/ChainStep.tla:\n" + p.stdout[-1500:])
-    ctx.classes["tlaps_obligations_proved"] = ctx.classes.get("tlaps_obligations_proved", 0) + int(m.group(1))
+    # ChainStep: the step over numbers; ChainMessage: the step over whole remainders configurations (head + bulk) and the inductive
+    # invariant of the machine that decodes an unbounded message (encoding back in reverse order restores every configuration)
+    for mod in ["ChainStep.tla", "ChainMessage.tla"]:
+        p = subprocess.run(["timeout", "1500", "tlapm", "--threads", "6", "--cleanfp", mod], cwd=wd, stdout=subprocess.PIPE, stderr=subprocess.STDOUT, text=True)
+        m = re.search(r"All (\d+) obligations proved", p.stdout)
+        if not m:
+            raise core.ToolError("TLAPS did not prove spec/proofs/%s:\n" % mod + p.stdout[-1500:])
+        ctx.classes["tlaps_obligations_proved"] = ctx.classes.get("tlaps_obligations_proved", 0) + int(m.group(1))
+        ctx.classes["tlaps_" + mod[:-4]] = int(m.group(1))
     ctx.assumptions.append("TLAPS 1.6 (SMT back end Z3) checks proofs correctly")
-    ctx.require("tlaps_obligations_proved", 100)
+    ctx.require("tlaps_obligations_proved", 250)
+    ctx.require("tlaps_ChainMessage", 150)
 
 
 @prop("C13")
